@@ -196,3 +196,35 @@ def gen_ruleset(rng, nrules=None, depth=None, csize=256, p_sc=0.4, p_bol=0.15, p
         if rng.random() < p_chain:
             rs.rules[i]['chain'] = True
     return rs
+
+
+def gen_nultail_ruleset(rng):
+    """rule sets in which NUL shares the *highest-numbered* equivalence class with other bytes: every byte below 0x80
+    that the patterns tell apart has its own one-character rule, and one rule takes `[^\\x01-\\x7f]` (the bytes from
+    0x80 up - and NUL) as a block, nothing else mentions NUL or a byte >= 0x80.  With k letters there are k + 2
+    classes (the letters, the other bytes below 0x80, the block): a power of two for k = 2, 6, 14 - where flex
+    decides about a separate NUL-transition table for full tables - and not for the other k."""
+    rs = RuleSet()
+    rs.csize = 256
+    k = rng.choice([2, 2, 6, 6, 14, 0, 1, 3, 5])
+    letters = rng.sample(range(97, 123), k)
+    block = ('cls', ('br', True, [('r', 1, 127)]))
+    heads = [('chr', c) for c in letters]
+    heads.append(rng.choice([('plus', block), block, ('cat', block, block)]))
+
+    def small(depth):
+        x = rng.random()
+        if depth == 0 or x < 0.35:
+            return ('chr', rng.choice(letters)) if letters and rng.random() < 0.7 else block
+        if x < 0.6:
+            return ('cat', small(depth - 1), small(depth - 1))
+        if x < 0.8:
+            return ('alt', small(depth - 1), small(depth - 1))
+        return ('plus', small(depth - 1))
+    for _ in range(rng.choice([0, 1, 2, 3])):
+        heads.append(('cat', small(2), small(1)))
+    rng.shuffle(heads)
+    for h in heads:
+        rs.rules.append({'scs': [], 'all': False, 'bol': False, 'head': h, 'trail': None, 'dollar': False})
+    rs.nultail_letters = k
+    return rs
